@@ -119,6 +119,33 @@ func (p Path) hasNegStep() bool {
 	return false
 }
 
+// hasHuge: some index, slice bound, step or union index has a magnitude of 2^62 or more: Go's int arithmetic
+// on it (size + end, end - start, a negation) can wrap around, the model's integers are unbounded.
+func (p Path) hasHuge() bool {
+	huge := func(v int64) bool { return v >= 1<<62 || v <= -(1<<62) }
+	for _, f := range p {
+		switch f.Kind {
+		case 'n':
+			if huge(int64(f.N)) {
+				return true
+			}
+		case 's':
+			for k, v := range f.S {
+				if !(k == 0 && f.NoStart) && huge(int64(v)) {
+					return true
+				}
+			}
+		case 'u':
+			for _, m := range f.Mem {
+				if v, ok := m.(int64); ok && huge(v) {
+					return true
+				}
+			}
+		}
+	}
+	return false
+}
+
 // hasZeroStep: some slice fragment has an explicit step of 0.
 func (p Path) hasZeroStep() bool {
 	for _, f := range p {
